@@ -702,7 +702,8 @@ impl Analyzable for StructConstructor {
             Some(symbol) => {
                 bail_report!(Error::invalid_symbol("struct type", symbol, &self.r#type));
             }
-            _ => unreachable!(),
+            // the type name is not in scope: that is the report
+            None => return r#type,
         };
 
         for case in type_def.cases.iter() {
@@ -1591,18 +1592,20 @@ impl Analyzable for Program {
 
         self.scope = Some(Rc::new(scope));
 
-        let parties = self.parties.analyze(self.scope.clone());
-
-        let policies = self.policies.analyze(self.scope.clone());
-
-        let assets = self.assets.analyze(self.scope.clone());
-
+        // types are resolved first, while nothing else holds on to the program scope
+        // (expressions of policy and asset definitions keep a reference to it)
         let mut types = self.types.clone();
         let mut aliases = self.aliases.clone();
 
         let scope_rc = self.scope.as_mut().unwrap();
 
         let (types, aliases) = resolve_types_and_aliases(scope_rc, &mut types, &mut aliases);
+
+        let parties = self.parties.analyze(self.scope.clone());
+
+        let policies = self.policies.analyze(self.scope.clone());
+
+        let assets = self.assets.analyze(self.scope.clone());
 
         let txs = self.txs.analyze(self.scope.clone());
 
